@@ -13,11 +13,15 @@ lets the hub run every callback that was queued before (the semantics of gevent.
 random.choice and time.time are replaced in the namespace of qs.jobs only.
 
 Per history one JSON line: {"i", "n", "diff", "viol":[{"mon","at","msg"}], "kinds":{...}}."""
+import atexit
+import heapq
 import json
 import logging
 import pickle
+import shutil
 import subprocess
 import sys
+import tempfile
 import types
 
 logging.disable(logging.CRITICAL)
@@ -133,10 +137,54 @@ def rec(d):
             d.get("deadline"), bool(d.get("drop", False))]
 
 
+DATADIRS = set()        # data dirs of histories in flight (removed at the end of the history; atexit = safety net)
+
+
+@atexit.register
+def _rm_datadirs():
+    for d in list(DATADIRS):
+        shutil.rmtree(d, ignore_errors=True)
+
+
+def new_main(datadir):
+    """A server object as mw-qserve builds it (qserve.main: Main(port, interface, data_dir, allowed_ips)); __init__ runs
+    loaddb().  run() is never called: no sockets; the harness plays the server session on m.db and calls m.savedb() where
+    run()'s `finally` does."""
+    return qserve.Main(0, "127.0.0.1", datadir, set())
+
+
+def db_state(d):
+    """what a saved db must carry: serial counter, every registered job (canonical record) under its id, key2data"""
+    wq = d.workq
+    return {"count": wq.count,
+            "jobs": sorted((rec(j._json()) for j in wq.id2job.values()), key=lambda r: (r[0] is None, r[0])),
+            "ids": sorted(([jid_s(k), j.serial] for k, j in wq.id2job.items()), key=repr),
+            "key2data": sorted(d.key2data.items(), key=repr)}
+
+
+def pull_order(q):
+    """(priority, serial) of the unfinished jobs of one channel queue in the order successive pops hand them out
+    (jobs.py pop: heappop of the list, finished heads preened)"""
+    q2 = list(q)
+    res = []
+    while q2:
+        j = heapq.heappop(q2)
+        if not j.done:
+            res.append((j.priority, j.serial))
+    return res
+
+
 class Sim:
-    def __init__(self):
-        self.db = qserve.db()
+    def __init__(self, datadir=None):
+        # C18 histories (those with a restart) run as server sessions: Main.loaddb at (re)start, ops, Main.savedb at stop
+        self.datadir = datadir
+        self.main = new_main(datadir) if datadir is not None else None
+        self.db = self.main.db if self.main is not None else qserve.db()
         self.wq = self.db.workq
+        self.holder = {}        # connection -> serials of the jobs it received (the monitor's own book-keeping)
+        self.kill_won = set()   # serials of jobs that a Kill request found unfinished (survives restarts)
+        self.loop_mail = {}
+        self.loop_queued = {}
         self.conns = {}
         self.log = []
         self.tracked = {}       # serial -> job object (every object seen in id2job)
@@ -290,6 +338,15 @@ class Sim:
             if self.handed.get(ser, 0) != self.requeued.get(ser, 0) + held:
                 self.v("handout", "unfinished job serial %d: handed out %d times, re-queued by a disconnect %d times, held by %d workers" % (
                     ser, self.handed.get(ser, 0), self.requeued.get(ser, 0), held))
+        # a worker is left blocked in its pull (registered waiter, nothing handed to it) while an unfinished job of a
+        # channel it asked for sits in the queue: it "receives ... among queued candidates the lowest" - not nothing
+        for w in wq._waiters:
+            chs = [chan_n(x) for x in w[0]]
+            cands = self.candidates(chs)
+            if cands:
+                who = getattr(w[1], "vt_conn", None)
+                self.v("min_first", "connection %s is blocked in a pull of channels %r although unfinished jobs (prio,serial) %r are queued" % (
+                    who["id"] if who else "?", chs, sorted(cands)))
         # counters add up to the number of jobs finished since the server (re)started
         chans = set(wq._channel2count) | set(j.channel for j in self.tracked.values())
         for ch in chans:
@@ -300,10 +357,12 @@ class Sim:
                 self.v("counters", "channel %s: counters %r add up to %d but %d jobs finished" % (ch, c, tot, fin))
 
     def monitor_out(self, out, before_candidates=None, pull=None):
+        self.track()
         for o in out:
             if o[0] == "deliver":
                 r = o[3]
                 self.handed[r[0]] = self.handed.get(r[0], 0) + 1
+                self.holder.setdefault(o[1], set()).add(r[0])
                 if r[5]:
                     self.v("never_done", "connection %d received finished job serial %d (error code %r)" % (o[1], r[0], r[6]))
                 if o[2] and r[2] not in o[2]:
@@ -312,10 +371,13 @@ class Sim:
                 if not o[2][5]:
                     self.v("wait", "connection %d released from wait on unfinished job serial %d" % (o[1], o[2][0]))
             elif o[0] == "died":
-                st = self.conns[o[1]]
-                for j in st["plugin"].running_jobs.values():
-                    if not j.done:
-                        self.requeued[j.serial] = self.requeued.get(j.serial, 0) + 1
+                # "again only if its worker's connection drops before finishing it": one more hand-out is due for every
+                # unfinished job THIS connection had received (own book-keeping: the plugin's running_jobs is the code
+                # under test and shutdown() may have rewritten it)
+                for ser in sorted(self.holder.pop(o[1], ())):
+                    j = self.tracked.get(ser)
+                    if j is not None and not j.done:
+                        self.requeued[ser] = self.requeued.get(ser, 0) + 1
 
     def candidates(self, chs):
         res = []
@@ -352,7 +414,12 @@ class Sim:
                         self.v("id_reuse", "new job got the server-chosen id %r which was issued before" % (r,))
                     self.issued.setdefault(nj.serial, r)
             if old is not None:
-                if old.error != "killed":
+                # "(unless that one was killed)": killed = a Kill request found the job unfinished (the first of finish /
+                # kill / timeout wins).  A job whose WORKER reported the error text 'killed' is neither clearly killed nor
+                # clearly not: the property text demands nothing for it
+                if old.serial not in self.kill_won and old.error == "killed":
+                    pass
+                elif old.serial not in self.kill_won:
                     if r != name or wq.count != count0 or wq.id2job.get(name) is not old:
                         self.v("readd", "add under existing id %r created a second job (returned %r, count %d -> %d)" % (name, r, count0, wq.count))
                 elif wq.id2job.get(name) is old:
@@ -396,7 +463,12 @@ class Sim:
                 except KeyError:
                     return [["keyerr"]]
                 return [["unit"]]
-            p.rpc_qkill([] if t[2] == "-" else [jid_py(x) for x in t[2].split(",")])
+            ids = [] if t[2] == "-" else [jid_py(x) for x in t[2].split(",")]
+            for x in ids:
+                j = wq.id2job.get(x)
+                if j is not None and not j.done:
+                    self.kill_won.add(j.serial)
+            p.rpc_qkill(ids)
             return [["unit"]]
         if k == "T":
             CUR.now += int(t[1])
@@ -462,6 +534,16 @@ class Sim:
         self.log = []
         self.in_loop = True
         self.done_before_loop = set(s for s, j in self.tracked.items() if j.done)
+        # for the order oracle of after_loop: what every blocked puller has been handed, and which unfinished jobs are queued
+        self.loop_mail = {}
+        for st in self.live():
+            if st["state"] == "busy" and st["cmd"][0] == "pull" and st["ev"] is not None and st["ev"].ready() and st["ev"].successful():
+                self.loop_mail[st["id"]] = st["ev"].value.serial
+        self.loop_queued = {}
+        for k, q in self.wq.channel2q.items():
+            for j in q:
+                if not j.done:
+                    self.loop_queued[j.serial] = (j.priority, chan_n(k))
 
     def after_loop(self):
         out = self.log
@@ -472,6 +554,25 @@ class Sim:
             if o[0] == "deliver":
                 o = [o[0], o[1], [chan_n(x) for x in o[2]], o[3]]
             res.append(o)
+        # order oracle for pulls that are served inside the event loop.  A delivery of this loop turn goes to a puller that
+        # was handed a job before the turn (notifiers queued during the turn run in a later one).  If it received a DIFFERENT
+        # job than the one it was handed, that one was finished meanwhile and the puller looked into the queues again: then
+        # no job that sat queued and unfinished during the whole turn (queued before and after, not delivered in between) and
+        # that it asked for may be smaller in (priority, serial) than what it got.
+        delivered = set(o[3][0] for o in res if o[0] == "deliver")
+        still = {}
+        for k, q in self.wq.channel2q.items():
+            for j in q:
+                if not j.done and j.serial in self.loop_queued and j.serial not in delivered:
+                    still[j.serial] = self.loop_queued[j.serial]
+        for o in res:
+            if o[0] != "deliver" or o[1] not in self.loop_mail or self.loop_mail[o[1]] == o[3][0]:
+                continue
+            got = (o[3][3], o[3][0])
+            better = sorted((p, s) for s, (p, ch) in still.items() if (not o[2] or ch in o[2]) and (p, s) < got)
+            if better:
+                self.v("min_first", "connection %d found its handed job finished, pulled channels %r again and received (prio,serial)=%r although %r were queued" % (
+                    o[1], o[2], got, better))
         for st in self.live():
             if st["state"] == "busy" and st["cmd"][0] == "wait" and st.get("wait_serial") in self.done_before_loop:
                 self.v("wait", "connection %d still blocked in wait although job serial %d finished before the event loop ran" % (st["id"], st["wait_serial"]))
@@ -484,25 +585,50 @@ class Sim:
 
     # ------------------------------------------------------------ restart (C18)
     def restart(self):
-        """pickle round trip of the db (qserve.Main.savedb/loaddb); all connections are gone."""
+        """The server stops and starts again; all connections are gone.  Two views of the saved state: the bare pickle round
+        trip of the db (as before), and - when the history runs as server sessions (self.main) - the real stop/start path:
+        Main.savedb() as run()'s `finally` calls it (before any connection greenlet gets to run its shutdown()), then a fresh
+        Main on the same data dir whose __init__ runs loaddb().  The history continues on the db the NEW Main loaded."""
         old = self
         before = {s: rec(j._json()) for s, j in old.tracked.items() if old.wq.id2job.get(j.jobid) is j}
         blob = pickle.dumps(old.db, 2)
+        main2 = None
+        if old.main is not None:
+            old.main.db = old.db
+            old.main.savedb()
+            main2 = new_main(old.datadir)
         old.kill_all()          # old greenlets die against the old object graph at the next loop turn
+        ref = pickle.loads(blob)
         new = Sim.__new__(Sim)
-        new.__dict__.update(db=pickle.loads(blob), conns={}, log=[], tracked={}, final={}, handed={}, requeued={},
-                            base_done={}, viol=old.viol, at=old.at, done_before_loop=set(), in_loop=False, issued=old.issued)
+        new.__dict__.update(db=main2.db if main2 is not None else ref, main=main2, datadir=old.datadir,
+                            conns={}, log=[], tracked={}, final={}, handed={}, requeued={}, holder={}, loop_mail={}, loop_queued={},
+                            base_done={}, viol=old.viol, at=old.at, done_before_loop=set(), in_loop=False, issued=old.issued,
+                            kill_won=old.kill_won)
         CUR.timers = []
         new.wq = new.db.workq
         for st in old.conns.values():
             st["sim"] = old            # their late output goes to the old log
         new.track()
         wq = new.wq
-        after = {s: rec(j._json()) for s, j in new.tracked.items()}
-        if wq.count != old.wq.count:
-            new.v("restore", "count %d became %d (ids could be reused)" % (old.wq.count, wq.count))
+        reft = {}
+        for j in list(ref.workq.id2job.values()) + [x for q in ref.workq.channel2q.values() for x in q]:
+            reft.setdefault(j.serial, j)
+        after = {s: rec(j._json()) for s, j in reft.items()}
+        if ref.workq.count != old.wq.count:
+            new.v("restore", "count %d became %d (ids could be reused)" % (old.wq.count, ref.workq.count))
         if after != before:
             new.v("restore", "jobs differ after restore: before %r after %r" % (before, after))
+        if main2 is not None:
+            want, got = db_state(ref), db_state(new.db)
+            if want != got:
+                bad = [f for f in want if want[f] != got[f]]
+                new.v("restore", "state saved by Main.savedb/loaddb differs from the queue's state at stop in %s: at stop %r, loaded at the next start %r" % (
+                    ",".join(bad), {f: want[f] for f in bad}, {f: got[f] for f in bad}))
+        for k, q in sorted(wq.channel2q.items()):
+            # "unfinished jobs ... are pullable again in the same priority/FIFO order"
+            order = pull_order(q)
+            if order != sorted(order):
+                new.v("restore", "after the restore successive pulls of channel %s hand out (prio,serial) %r, priority/FIFO order is %r" % (k, order, sorted(order)))
         for s, j in new.tracked.items():
             if j.finish_event.is_set() != bool(j.done):
                 new.v("restore", "job serial %d: done=%r but finish event set=%r" % (s, j.done, j.finish_event.is_set()))
@@ -520,8 +646,22 @@ class Sim:
 
 
 def run_history(ops, prop, model, trace):
-    """generator: yields at every RunLoop; result in the StopIteration value"""
-    sim = Sim()
+    """generator: yields at every RunLoop; result in the StopIteration value.  A history with a restart gets its own data
+    dir (one workq.pickle, written by Main.savedb, read by Main.loaddb), removed when the history ends."""
+    datadir = None
+    if any(op.split()[0] == "R" for op in ops):
+        datadir = tempfile.mkdtemp(prefix="vt-c18-", dir="/var/tmp")
+        DATADIRS.add(datadir)
+    try:
+        return (yield from _run_history(ops, prop, model, trace, datadir))
+    finally:
+        if datadir is not None:
+            shutil.rmtree(datadir, ignore_errors=True)
+            DATADIRS.discard(datadir)
+
+
+def _run_history(ops, prop, model, trace, datadir):
+    sim = Sim(datadir)
     diff = None
     kinds = {}
     steps = []
